@@ -113,6 +113,14 @@ func GenCase(r *rand.Rand, tier string) Case {
 				out = append(out, nm)
 			}
 		}
+		// a list is written in any order, and may name a state twice: the index space of the diffs
+		// is the machine's order whatever the list looks like
+		if len(out) > 1 && r.Intn(2) == 0 {
+			r.Shuffle(len(out), func(a, b int) { out[a], out[b] = out[b], out[a] })
+		}
+		if len(out) > 0 && r.Intn(5) == 0 {
+			out = append(out, out[r.Intn(len(out))])
+		}
 		return out
 	}
 	switch mode {
